@@ -432,7 +432,27 @@ def rule_shared_rel(R):
     _r(R)
 
 
+def rule_inflight_count(R):
+    """the count of publishes that still occupy the broker's window (taken off the fresh window at a resumed reconnect)
+    covers every retained PUBLISH whatever its send progress: at that moment every entry was just re-armed to "not yet
+    written", so a count that looks at the send state sees none of the packets that are about to be retransmitted"""
+    f = R.f
+    b = roles.method(f, OUTBOUND, "inflight_publishes")
+    R.touch(b)
+    reads = []
+    for cb in [b] + [c for c in f.children(b) if c.kind == "closure"]:
+        terms = [cb.local_term(0)] + [cb.switch_info(bb)["subject"] for bb in cb.switches if bb in cb.reachable]
+        for t in terms:
+            for x in walk(t):
+                if isinstance(x, tuple) and x[0] == "field" and x[2] == "state" and (x[3] or "").endswith(("RetainedPacket", "PendingRelease")):
+                    reads.append(show(x)[:60])
+    R.ob("resume/inflight-counts-every-publish", not reads,
+         "Outbound::inflight_publishes counts retained PUBLISH packets by their packet type alone, not by their send state%s"
+         % ("" if not reads else " (reads %s)" % reads[0]), where=b.span)
+
+
 def run(R):
+    R.rule("inflight-count", rule_inflight_count)
     R.rule("rel", rule_shared_rel)
     R.rule("reason", rule_reason)
     R.rule("negotiated", rule_negotiated)
